@@ -36,11 +36,23 @@ RULE = ("per operation: exhaustive over strings of length 0..4 over {a,b} x patt
         "around the string-cache classes (31..33, 63..65, 100, 128), repeat-constructor, split into a collection, subStringFromTill, bit and binary "
         "formatters; operation SEQUENCES on three shared objects: every ordered pair (producer of a buffer, operation that releases it) over the 13 "
         "sequence operations on the same object at three sizes (padding followed by +=, by a second padding, by assignment, by destruction, ...), "
-        "and random sequences of 1..8 (quick) / 1..20 (thorough) operations; "
+        "and random sequences of 1..8 (quick) / 1..20 (thorough) operations over all 32 steps and four objects; "
+        "CHAINS on the returned object: every producer of an object (constructor, empty and default constructor, copy, subString with 13 begin/amount shapes -- truncating to "
+        "n/2, 1, 0 bytes, by one byte, inner, exact, amount past the end, npos, begin at / past the end --, subString(begin), a second subString of the result, "
+        "subStringFromTill with the end character found / not found / equal to the start / NUL, lowerCase, printable, operator+, StringFromFormat on both paths, "
+        "repeat, ordinal / masked-bit / binary formatters, replace(str, str) growing / shrinking / to empty / without match, replace(char, char), padded as str1 / str2 / "
+        "not padded, every element of a split collection incl. the last piece and the out-of-range element) constructed DIRECTLY from the returned value, followed by "
+        "every in-place consumer (+= char* / SimpleString / itself / empty, replace(char, char), replace(str, str) with and without a match, copyToBuffer with 8 buffer "
+        "sizes around the length, at() at 7 positions up to the terminator, size / isEmpty, == / != / contains / startsWith / endsWith / count in both directions and "
+        "against itself, findFrom incl. NUL, a second subString past the new end, subStringFromTill, split, copy, assignment, lowerCase, printable, +, padding both "
+        "ways) and then size, one more +=, a copy and a comparison -- at two (quick) / six (thorough) length scales; the red-team shape exhaustively on short "
+        "strings (begin 0..5 x amounts around the remaining length x four tails, directly / through a copy / through an assignment); random chains; "
         "non-trivial = at least one argument string is non-empty or a position is out of range")
 ASSUMPTIONS = ["byte strings without embedded NUL (C strings)", "LP64, size_t = 64 bit", "AtoI/AtoU: the digit string read fits the result type (int / unsigned; every run of at most 9 digits does) -- beyond that AtoI is signed overflow: same contract as atoi",
                "StrNCpy/copyToBuffer/MemCmp are called with buffers at least as large as their contract requires",
-               "padding character and split delimiter are non-NUL bytes; inside operation sequences replace(char, char) does not write NUL (the single operation :replc does)"]
+               "padding character and split delimiter are non-NUL bytes; inside operation sequences replace(char, char) does not write NUL (the single operation :replc does)",
+               "the harness holds the result object of a sequence as the very object the operation returned (C++17 guaranteed elision of the returned prvalue into a member); "
+               "whether the named local inside the library function is itself elided (NRVO) is the compiler's choice -- the model allows either: buffers may carry slack"]
 ALPHA = [0x61, 0x62, 0x41, 0x42, 0x2e, 0x20, 0x0a, 0x09, 0x01, 0x7f, 0x80, 0xff, 0x31, 0x5a, 0x5b, 0x40, 0x7a, 0x0d, 0x07, 0x1f]
 TWO = ["a", "b", "A", "B"]
 GROUP1 = ["strlen", "strcmp", "strncmp", "strstr", "memcmp", "contains", "containsnc", "starts", "ends", "count", "eq", "eqnc", "find",
@@ -53,6 +65,7 @@ SEQ_ARITY = {":set": 2, ":asg": 2, ":app": 2, ":appc": 2, ":low": 2, ":sub": 4, 
              ":rbin": 1, ":rsplit": 3, ":size": 1, ":at": 2, ":cmp": 2, ":cpb": 2, ":find": 3}
 R_PRODUCERS = (":rnew", ":rcopy", ":rsub", ":rsub1", ":rft", ":rlow", ":rprt", ":rplus", ":rfmt", ":rrep", ":rord", ":rmask", ":rbin", ":rsplit")
 OBSERVERS = (":size", ":at", ":cmp", ":cpb", ":find")
+SHRINK_NUM = {":sub": (3, 4), ":rsub": (2, 3), ":rsub1": (2,), ":rep": (3,), ":rrep": (2,), ":at": (2,), ":cpb": (2,), ":find": (2,), ":rsplit": (3,), ":rord": (1,), ":rmask": (1, 2, 3)}
 SEARCH_CAP = 20000                       # search mode (a proof no longer builds): the quick families + this many thorough scenarios
 PAIR_OPS = ["strcmp", "strstr", "contains", "containsnc", "starts", "ends", "count", "eq", "eqnc"]
 
@@ -694,9 +707,9 @@ def shrink(s):
             rest = ops[:k] + ops[k + 1:]
             if rest:
                 yield seq([" ".join(o) for o in rest])
-        for k, o in enumerate(ops):             # smaller positions / amounts / counts (not the object indices)
-            for q in range(1 + _nidx(o[0]), len(o)):
-                if not o[q].startswith("$") and o[q] not in ("0",):
+        for k, o in enumerate(ops):             # smaller positions / amounts / counts (not the object indices, not the characters: 0 is no valid pad / delimiter)
+            for q in SHRINK_NUM.get(o[0], ()):
+                if o[q] not in ("0",):
                     v = int(o[q], 16)
                     for c in sorted(set([v // 2, v - 1])):
                         o2 = o[:q] + ["%x" % c] + o[q + 1:]
@@ -718,7 +731,10 @@ LEVEL_TEXT = ("Machine-checked (Coq) theorems over a bounds-checked executable m
               "Allocation pairing: proved for every sequence of the buffer-management primitives executed by any number of objects whose lives interleave "
               "(C13_pool_pairing), with the event log of padStringsToSameLength modelled event by event; observed by the recording allocator on EVERY scenario, "
               "the window closing only after all objects of the scenario (arguments, results, temporaries, the collection of split, the three objects of an "
-              "operation sequence) are destroyed. Operation sequences on shared objects: every step Ok and textbook (C13_sequence_spec); repeat, padding, "
+              "operation sequence) are destroyed. Operation sequences on four shared objects, one of them the RESULT OBJECT (the very object an operation returned, "
+              "consumed in place by the next steps): every step Ok and textbook from any state whose buffers hold the textbook strings with ANY slack behind the "
+              "terminator -- the recorded buffer size need not be size() + 1 -- and every observer (size, isEmpty, at, comparisons, copyToBuffer, findFrom) reports "
+              "the textbook answer (C13_sequence_spec, C13_sequence_step_spec, C13_sequence_observers_spec, the *_slack_spec theorems, C13_subString_then_append); repeat, padding, "
               "split (loop lemmas of C12_Safe.v reused), subStringFromTill, StringFromMaskedBits and StringFromBinary return their textbook values "
               "(C13_scn_meets_spec: every valid scenario of the check's scenario language).")
 LEVEL_NOTE = ("Partial for memory safety: the proofs are about the bounds-checked model; real heap accesses are seen only by ASan in the run. Trusted: "
